@@ -7,6 +7,7 @@ import (
 	"crypto/ed25519"
 	"crypto/elliptic"
 	"fmt"
+	"math"
 	"math/big"
 	"strings"
 
@@ -114,10 +115,19 @@ func decorate(t *tape.Tape, k *cose.Key) string {
 		d += "+kid"
 	}
 	if t.Bool(1, 3, "c14.ops") {
-		// both operations always stay permitted (restrictions are C15's
-		// business); extra ones vary
-		k.Ops = [][]cose.KeyOp{{cose.KeyOpSign, cose.KeyOpVerify}, {cose.KeyOpVerify, cose.KeyOpSign, cose.KeyOpDeriveBits}, {cose.KeyOpSign, cose.KeyOpVerify, cose.KeyOpEncrypt}}[t.Choose(3, "c14.ops.v")]
+		// mostly both operations stay permitted; sometimes the key is
+		// restricted (sign only, verify only, key agreement only, nothing):
+		// the CONVERSIONS to Go keys must not care - that a restricted key
+		// yields no signer / verifier is C15's business and is not demanded
+		// or forbidden here
+		sets := [][]cose.KeyOp{{cose.KeyOpSign, cose.KeyOpVerify}, {cose.KeyOpVerify, cose.KeyOpSign, cose.KeyOpDeriveBits}, {cose.KeyOpSign, cose.KeyOpVerify, cose.KeyOpEncrypt},
+			{cose.KeyOpSign}, {cose.KeyOpVerify}, {cose.KeyOpDeriveKey, cose.KeyOpDeriveBits}, {}}
+		i := t.Pick([]int{3, 3, 3, 1, 1, 1, 1}, "c14.ops.v")
+		k.Ops = sets[i]
 		d += "+ops"
+		if i >= 3 {
+			d += "(restricted)"
+		}
 	}
 	if t.Bool(1, 4, "c14.baseiv") {
 		k.BaseIV = t.Bytes(8, "c14.iv.v")
@@ -251,6 +261,10 @@ func c14GoEC(r *Run, t *tape.Tape, priv *ecdsa.PrivateKey, ent *Entropy) {
 			return
 		}
 	}
+	if !goOpsAllow(back, cose.KeyOpSign) || !goOpsAllow(backPub, cose.KeyOpVerify) {
+		r.Outcome("chain-ok/conversions-only(restricted key_ops)")
+		return
+	}
 	// signer from the stored private key, verifier from the stored public key
 	var s cose.Signer
 	var v cose.Verifier
@@ -357,6 +371,16 @@ func c14GoEd(r *Run, t *tape.Tape, priv ed25519.PrivateKey, ent *Entropy) {
 		r.Fail("public-key-roundtrip-differs/Ed25519", "PublicKey() after the conversion chain: %v", err)
 		return
 	}
+	// the public half of the stored PRIVATE key too
+	r.Lib(func() { gotPub, err = back.PublicKey() })
+	if gp, isEd := gotPub.(ed25519.PublicKey); err != nil || !isEd || !bytes.Equal(gp, priv.Public().(ed25519.PublicKey)) {
+		r.Fail("public-key-roundtrip-differs/Ed25519/from-private", "PublicKey() of the stored private key: %v", err)
+		return
+	}
+	if !goOpsAllow(back, cose.KeyOpSign) || !goOpsAllow(backPub, cose.KeyOpVerify) {
+		r.Outcome("chain-ok/conversions-only(restricted key_ops)")
+		return
+	}
 	var s cose.Signer
 	var v cose.Verifier
 	r.Lib(func() { s, err = back.Signer() })
@@ -398,6 +422,10 @@ func c14Peer(r *Run, t *tape.Tape, ent *Entropy) {
 	}
 	// ops that forbid the conversion are C15's business
 	ks.Ops, ks.HasOps = nil, false
+	if ks.Kty == refcose.KtyOKP && len(ks.D) > 32 {
+		// (the generator's deliberately oversized d is C15's input, not a valid key)
+		ks.D = ks.D[:32]
+	}
 	b := ks.Bytes()
 	r.Op("KEY_PUT", "peer-written %s", ks.Desc)
 	r.Outcome("peer/" + fmt.Sprint(ks.Kty) + fmt.Sprintf("/private=%v", ks.D != nil))
@@ -542,6 +570,19 @@ func scenarioC15(r *Run) {
 		}
 		r.Fail("key-encoding-not-canonical", "re-encoded key is not deterministic CBOR: %s\n%x", why, enc1)
 		return
+	}
+	// re-encoding neither invents nor drops a parameter, and changes no value
+	// except for the zero-padding of EC2 x and y.  Keys that carry a CBOR tag
+	// anywhere are left out: the CBOR library maps date/time tags and bignums
+	// to Go types that it writes back in another (equivalent or not) form,
+	// which is the subject of the known findings and not of this comparison.
+	if it0, perr := refcbor.ParseOne(stored); perr == nil && !hasAnyTag(it0) {
+		{
+			if why := keyParamsDiffer(stored, enc1, view); why != "" {
+				r.Fail("reencoding-changes-key-parameters", "MarshalCBOR of an accepted key %s\nstored:     %s\nre-encoded: %x", why, hexShort(stored), enc1)
+				return
+			}
+		}
 	}
 	var k2 cose.Key
 	r.Lib(func() { err = k2.UnmarshalCBOR(enc1) })
@@ -878,6 +919,170 @@ func samePublic(a, b crypto.PublicKey) bool {
 	case *ecdsa.PublicKey:
 		y, ok := b.(*ecdsa.PublicKey)
 		return ok && sameECPub(x, y)
+	}
+	return false
+}
+
+// keyParamsDiffer compares the parameters of a stored key with those of its
+// re-encoding: same labels, same values (compared in canonical form), except
+// that EC2 x and y may gain leading zero bytes up to the field size.
+func keyParamsDiffer(stored, reenc []byte, view *refcose.KeyView) string {
+	a, err1 := refcbor.ParseOne(stored)
+	b, err2 := refcbor.ParseOne(reenc)
+	if err1 != nil || err2 != nil || a.Major != refcbor.MMap || b.Major != refcbor.MMap {
+		return ""
+	}
+	index := func(m *refcbor.Item) (map[string]*refcbor.Item, []string) {
+		out := map[string]*refcbor.Item{}
+		var order []string
+		for i := 0; i+1 < len(m.Elems); i += 2 {
+			k := string(refcbor.CanonicalBytes(m.Elems[i]))
+			out[k] = m.Elems[i+1]
+			order = append(order, k)
+		}
+		return out, order
+	}
+	am, aorder := index(a)
+	bm, border := index(b)
+	for _, k := range border {
+		if _, ok := am[k]; !ok {
+			return fmt.Sprintf("invents a parameter (label %x) that the stored key does not have", k)
+		}
+	}
+	isCoord := func(k string) bool {
+		return view.Kty == refcose.KtyEC2 && (k == "\x21" || k == "\x22") // labels -2, -3
+	}
+	for _, k := range aorder {
+		bv, ok := bm[k]
+		av := am[k]
+		if !ok {
+			if v, isInt := av.Int64(); k == "\x03" && av.IsInt() && isInt && v == 0 {
+				// alg 0 (reserved) is what go-cose's Key uses for "no alg"
+				continue
+			}
+			return fmt.Sprintf("drops the parameter with label %x", k)
+		}
+		if isCoord(k) && av.Major == refcbor.MBstr && bv.Major == refcbor.MBstr {
+			if !bytes.Equal(bytes.TrimLeft(av.Data, "\x00"), bytes.TrimLeft(bv.Data, "\x00")) {
+				return fmt.Sprintf("changes coordinate %x beyond zero padding", k)
+			}
+			continue
+		}
+		// values: only the key material itself is compared (kty, crv, and the
+		// parameters -1..-4 of EC2/OKP/symmetric keys).  Other values may be
+		// respelt by the CBOR round trip without the statement being
+		// concerned (operation names as integers, undefined as null, ...).
+		material := k == "\x01" || k == "\x20" || k == "\x21" || k == "\x22" || k == "\x23"
+		if material && (av.Major == refcbor.MBstr || av.IsInt()) && !itemsEquivalent(av, bv) {
+			return fmt.Sprintf("changes the value of the key-material parameter with label %x", k)
+		}
+	}
+	return ""
+}
+
+// itemsEquivalent: same data item up to encoding choices (head widths, map
+// order, float width).
+func itemsEquivalent(a, b *refcbor.Item) bool {
+	af, aIsF := floatOf(a)
+	bf, bIsF := floatOf(b)
+	if aIsF || bIsF {
+		return aIsF && bIsF && (af == bf || (af != af && bf != bf))
+	}
+	if a.Major != b.Major {
+		return false
+	}
+	switch a.Major {
+	case refcbor.MArray:
+		if len(a.Elems) != len(b.Elems) {
+			return false
+		}
+		for i := range a.Elems {
+			if !itemsEquivalent(a.Elems[i], b.Elems[i]) {
+				return false
+			}
+		}
+		return true
+	case refcbor.MTag:
+		return a.Arg == b.Arg && itemsEquivalent(a.Elems[0], b.Elems[0])
+	case refcbor.MMap:
+		if len(a.Elems) != len(b.Elems) {
+			return false
+		}
+		for i := 0; i+1 < len(a.Elems); i += 2 {
+			found := false
+			for j := 0; j+1 < len(b.Elems); j += 2 {
+				if itemsEquivalent(a.Elems[i], b.Elems[j]) && itemsEquivalent(a.Elems[i+1], b.Elems[j+1]) {
+					found = true
+					break
+				}
+			}
+			if !found {
+				return false
+			}
+		}
+		return true
+	}
+	return bytes.Equal(refcbor.CanonicalBytes(a), refcbor.CanonicalBytes(b))
+}
+
+func floatOf(it *refcbor.Item) (float64, bool) {
+	if it.Major != refcbor.MSimple {
+		return 0, false
+	}
+	switch it.Width {
+	case 8:
+		return math.Float64frombits(it.Arg), true
+	case 4:
+		return float64(math.Float32frombits(uint32(it.Arg))), true
+	case 2:
+		return halfToFloat(uint16(it.Arg)), true
+	}
+	return 0, false
+}
+
+func halfToFloat(h uint16) float64 {
+	sign := 1.0
+	if h&0x8000 != 0 {
+		sign = -1
+	}
+	exp := int(h>>10) & 0x1f
+	frac := float64(h & 0x3ff)
+	switch exp {
+	case 0:
+		return sign * math.Ldexp(frac, -24)
+	case 31:
+		if frac == 0 {
+			return sign * math.Inf(1)
+		}
+		return math.NaN()
+	}
+	return sign * math.Ldexp(frac+1024, exp-25)
+}
+
+func hasAnyTag(it *refcbor.Item) bool {
+	if it == nil {
+		return false
+	}
+	if it.Major == refcbor.MTag {
+		return true
+	}
+	for _, e := range it.Elems {
+		if hasAnyTag(e) {
+			return true
+		}
+	}
+	return false
+}
+
+// goOpsAllow: key_ops absent, or present and listing op.
+func goOpsAllow(k *cose.Key, op cose.KeyOp) bool {
+	if k.Ops == nil {
+		return true
+	}
+	for _, o := range k.Ops {
+		if o == op {
+			return true
+		}
 	}
 	return false
 }
